@@ -47,6 +47,10 @@ pub struct E2eCase {
     /// number of probe peers that dial in one after another; each earlier one disconnects once served
     #[serde(default = "one")]
     pub probes: u8,
+    /// C18 mode: the only question is whether the port the client announces is a port on which it answers a BitTorrent
+    /// handshake. 0 = off, 1 = port 6881 is free, 2 = port 6881 is already taken by another program
+    #[serde(default)]
+    pub listen_check: u8,
     pub seed: u64,
 }
 
@@ -68,6 +72,12 @@ pub struct E2eResult {
     pub peers_handshake_ok: Vec<bool>,
     pub panics: Vec<String>,
     pub deadline_hit: bool,
+    /// C18 mode: the `port` parameter of the first announce, and whether a handshake sent to that port was answered
+    /// by the client (its own peer id and the torrent's info-hash)
+    #[serde(default)]
+    pub announced_port: Option<u16>,
+    #[serde(default)]
+    pub announced_port_answers: Option<bool>,
     pub wall_ms: u64,
     pub error: Option<String>,
 }
@@ -129,6 +139,7 @@ struct Shared {
     tracker_failures: AtomicUsize,
     contacted: Vec<AtomicBool>,
     handshake_ok: Vec<AtomicBool>,
+    announced_port: AtomicU64,
 }
 
 fn ms(t0: Instant) -> u64 {
@@ -162,6 +173,19 @@ async fn fake_tracker(case: E2eCase, t: Torrent, sh: Arc<Shared>) {
             Err(_) => continue,
         };
         let _req = read_http_request(&mut s).await;
+        if sh.announced_port.load(Ordering::SeqCst) == 0 {
+            let text = String::from_utf8_lossy(&_req).to_string();
+            let line = text.lines().next().unwrap_or("").to_string();
+            if let Some(q) = line.split(' ').nth(1).and_then(|p| p.split_once('?')).map(|x| x.1.to_string()) {
+                for kv in q.split('&') {
+                    if let Some(v) = kv.strip_prefix("port=") {
+                        if let Ok(p) = v.parse::<u16>() {
+                            sh.announced_port.store(p as u64 + 1, Ordering::SeqCst);
+                        }
+                    }
+                }
+            }
+        }
         sh.tracker_requests.fetch_add(1, Ordering::SeqCst);
         let hold = case.hold_until_probe_served && sh.probe_served_ms.load(Ordering::SeqCst) == 0 && sh.t0.elapsed() < Duration::from_secs(20);
         let fail = if !case.tracker.is_empty() && (k < case.tracker.len() || hold) { Some(case.tracker[k % case.tracker.len()].clone()) } else { None };
@@ -402,6 +426,7 @@ pub fn child_main(case_path: &str, out_path: &str) -> i32 {
         tracker_good_ms: AtomicU64::new(0),
         tracker_requests: AtomicUsize::new(0),
         tracker_failures: AtomicUsize::new(0),
+        announced_port: AtomicU64::new(0),
         contacted: (0..case.peers.len()).map(|_| AtomicBool::new(false)).collect(),
         handshake_ok: (0..case.peers.len()).map(|_| AtomicBool::new(false)).collect(),
     });
@@ -413,7 +438,12 @@ pub fn child_main(case_path: &str, out_path: &str) -> i32 {
         .into_iter()
         .map(|(p, s, l)| (if case.geo.multi { format!("{}/{}", case.geo.name, p) } else { p }, s, l))
         .collect();
-    let download_mode = !case.hold_until_probe_served;
+    let download_mode = !case.hold_until_probe_served && case.listen_check == 0;
+    // C18 mode 2: somebody else already listens on 6881 (both wildcard and loopback binds by the client must fail)
+    let _squatter = if case.listen_check == 2 { std::net::TcpListener::bind("0.0.0.0:6881").ok() } else { None };
+    let listen_answer: Arc<std::sync::Mutex<Option<bool>>> = Arc::new(std::sync::Mutex::new(None));
+    let listen_answer2 = listen_answer.clone();
+    let ih = t.info_hash();
     let outcome = std::panic::catch_unwind(std::panic::AssertUnwindSafe(|| {
         rt.block_on(async {
             tokio::spawn(fake_tracker(case.clone(), t.clone(), sh.clone()));
@@ -432,6 +462,32 @@ pub fn child_main(case_path: &str, out_path: &str) -> i32 {
                 let deadline = if download_mode { Duration::from_secs(60) } else { Duration::from_secs(50 + 2 * case.tracker.len() as u64) };
                 loop {
                     tokio::time::sleep(Duration::from_millis(25)).await;
+                    if case.listen_check > 0 {
+                        let ap = sh.announced_port.load(Ordering::SeqCst);
+                        if ap > 0 {
+                            // dial the announced port and shake hands
+                            let port = (ap - 1) as u16;
+                            let mut ok = false;
+                            if let Ok(Ok(mut s)) = tokio::time::timeout(Duration::from_secs(2), TcpStream::connect(("127.0.0.1", port))).await {
+                                let _ = s.write_all(&wire::encode(&RFrame::handshake(ih, *b"-FK0001-listenlisten"))).await;
+                                let mut got = vec![];
+                                let mut tmp = [0u8; 256];
+                                while got.len() < 68 {
+                                    match tokio::time::timeout(Duration::from_secs(2), s.read(&mut tmp)).await {
+                                        Ok(Ok(n)) if n > 0 => got.extend_from_slice(&tmp[..n]),
+                                        _ => break,
+                                    }
+                                }
+                                ok = got.len() >= 68 && got[28..48] == ih && got[48..68] == own_id;
+                            }
+                            *listen_answer2.lock().unwrap() = Some(ok);
+                            return (true, false);
+                        }
+                        if started.elapsed() > Duration::from_secs(8) {
+                            return (false, true);
+                        }
+                        continue;
+                    }
                     if download_mode {
                         // done when every expected file is present with the right length and content
                         let mut all = true;
@@ -474,6 +530,9 @@ pub fn child_main(case_path: &str, out_path: &str) -> i32 {
     };
     res.wall_ms = started.elapsed().as_millis() as u64;
     res.deadline_hit = deadline_hit;
+    let ap = sh.announced_port.load(Ordering::SeqCst);
+    res.announced_port = if ap > 0 { Some((ap - 1) as u16) } else { None };
+    res.announced_port_answers = *listen_answer.lock().unwrap();
     if done {
         res.completed_ms = Some(res.wall_ms);
     }
@@ -608,7 +667,7 @@ pub fn download_strategy() -> BoxedStrategy<E2eCase> {
     (small_geo(), vec(peer_spec(), 1..=3), prop_oneof![3 => Just(vec![]), 1 => vec(outcome(), 1..3)], prop_oneof![3 => Just(0u16), 1 => Just(1200u16)], any::<bool>(), any::<u64>())
         .prop_map(|(geo, mut peers, tracker, tracker_start_delay_ms, probe, seed)| {
             peers[0].essential = true;
-            E2eCase { geo, peers, tracker, tracker_start_delay_ms, probe, hold_until_probe_served: false, probes: 1, seed }
+            E2eCase { geo, peers, tracker, tracker_start_delay_ms, probe, hold_until_probe_served: false, probes: 1, listen_check: 0, seed }
         })
         .boxed()
 }
@@ -675,6 +734,7 @@ pub fn fault_strategy(tier: Tier) -> BoxedStrategy<E2eCase> {
             probe: true,
             hold_until_probe_served: true,
             probes,
+            listen_check: 0,
             seed,
         })
         .boxed()
@@ -737,6 +797,68 @@ pub fn c02_process_sub() -> Sub {
         run: |ctx| run_proptest_cfg(ctx, "process", download_strategy(), check_download, 4),
         replay: |v| replay_case::<E2eCase>(v, check_download),
         min_class: &[("conclusive", 0.5)],
+    }
+}
+
+// ------------------------------------------------------------------ C18: the announced port is the listening port
+
+fn listen_strategy() -> BoxedStrategy<E2eCase> {
+    (small_geo(), prop_oneof![Just(1u8), Just(2u8)], any::<u64>())
+        .prop_map(|(geo, listen_check, seed)| E2eCase {
+            geo,
+            peers: vec![],
+            tracker: vec![],
+            tracker_start_delay_ms: 0,
+            probe: false,
+            hold_until_probe_served: false,
+            probes: 1,
+            listen_check,
+            seed,
+        })
+        .boxed()
+}
+
+/// The unmodified Session::run in its own network namespace, once with port 6881 free and once with another program
+/// already listening on it: whatever port the announce names must be one on which the client answers a handshake
+/// with its own peer id. A client that refuses to start (or never announces) in the second situation claims nothing.
+pub fn check_listen(c: &E2eCase) -> Outcome {
+    let mut o = Outcome::new();
+    o.nontrivial = true;
+    let r = match run_child(c, Duration::from_secs(40)) {
+        Ok(r) => r,
+        Err(e) => {
+            o.exclude("e2e-child-failed");
+            let _ = e;
+            return o;
+        }
+    };
+    o.class_if(c.listen_check == 2, "port-6881-taken-by-another-program");
+    match (r.announced_port, r.announced_port_answers) {
+        (None, _) => {
+            o.class("client-never-announced");
+            if c.listen_check == 1 {
+                o.fail("no-announce-although-port-free", format!("with port 6881 free the client never announced within 8 s (panics {:?})", r.panics));
+            }
+        }
+        (Some(p), Some(true)) => {
+            o.class("announced-port-answers");
+            let _ = p;
+        }
+        (Some(p), _) => o.fail(
+            "announced-port-is-not-the-clients-listening-port",
+            format!("the announce said port={} but a BitTorrent handshake sent to 127.0.0.1:{} was not answered by the client (port 6881 {}); panics {:?}", p, p, if c.listen_check == 2 { "was taken by another program" } else { "was free" }, r.panics),
+        ),
+    }
+    o
+}
+
+pub fn c18_listen_sub() -> Sub {
+    Sub {
+        name: "listen",
+        cases: |t| t.pick(32, 160),
+        run: |ctx| run_proptest_cfg(ctx, "listen", listen_strategy(), check_listen, 2),
+        replay: |v| replay_case::<E2eCase>(v, check_listen),
+        min_class: &[("port-6881-taken-by-another-program", 0.2), ("announced-port-answers", 0.2)],
     }
 }
 
